@@ -75,6 +75,7 @@ class Par(param.Parameterized):
     l = param.List(default=[1])
     d = param.Dict(default={"k": 1})
     s = param.Selector(objects=[1, 2, 3])
+    sd = param.Selector(objects={"one": 1, "two": 2}, check_on_set=False)      # dict-declared, may gain unlabelled objects
     sub = param.ClassSelector(class_=CSub, default=None)
     free = param.Parameter(default=None)
 
@@ -106,6 +107,7 @@ class ParNoSubDep(param.Parameterized):
     l = param.List(default=[1])
     d = param.Dict(default={"k": 1})
     s = param.Selector(objects=[1, 2, 3])
+    sd = param.Selector(objects={"one": 1, "two": 2}, check_on_set=False)      # dict-declared, may gain unlabelled objects
     sub = param.ClassSelector(class_=CSub, default=None)
     free = param.Parameter(default=None)
 
